@@ -157,6 +157,12 @@ type c07Res struct {
 	Target    string `json:"target,omitempty"`
 	MarkerHex string `json:"marker_hex,omitempty"`
 	MarkerRead bool  `json:"marker_read"` // Read returned the marker (violation)
+	AfterOK    bool  `json:"after_ok"`    // a genuine payload written after the marker was read by the target
+	// empty pre-shared key leg (kind psk0) / resumed states leg (kind resume)
+	Mode    string `json:"mode,omitempty"`   // psk0: who returns the empty key, +-extended master secret; resume: when the state was captured
+	Side    string `json:"side,omitempty"`   // resume: whose state
+	Refused string `json:"refused,omitempty"` // resume: error of Resume ("" = it resumed)
+	Epoch0  int    `json:"epoch0"`            // resume: application_data records emitted at epoch 0
 	Queued     int   `json:"queued"`      // items in the target's Read queue right after the injection, handshake still running
 	Effect    string `json:"effect,omitempty"`
 }
@@ -895,6 +901,11 @@ func c07Inject(t *testing.T, v c07Variant, rng *vRand, stage int, form int) c07R
 		pl := append([]byte("c07/genuine-after-marker/"), rng.bytes(16)...)
 		_, _ = lab.other(res.Target).Conn.Write(pl)
 		lab.Pump.run(func() bool { return false }, time.Second)
+		for _, r := range lab.peer(res.Target).reads() {
+			if bytes.Equal(r, pl) {
+				res.AfterOK = true
+			}
+		}
 	} else if injected {
 		// the target may have aborted: a reader on a finished (failed) handshake returns the error at once; a
 		// reader on a handshake still in progress would block on the handshake mutex (never idle in a bubble)
@@ -914,6 +925,179 @@ func c07Inject(t *testing.T, v c07Variant, rng *vRand, stage int, form int) c07R
 	return res
 }
 
+// ---------------------------------------------------------------- empty pre-shared key
+
+// c07EmptyPSK: a PSK callback that returns an EMPTY key (mode: who).  With an empty key the pre_master_secret
+// is 00 00 00 00: anybody could complete the handshake, and the exported keying material is computable from the
+// hello randoms alone.  The endpoints must refuse it.
+func c07EmptyPSK(t *testing.T, mode string, ems bool) c07Res {
+	t.Helper()
+	res := c07Res{Kind: "psk0", Variant: "psk-gcm", Mode: mode, Drop: -1, Stage: -1}
+	if ems {
+		res.Mode += "+ems"
+	}
+	ccfg, scfg := c07PSK12(TLS_PSK_WITH_AES_128_GCM_SHA256, 0, 0)()
+	empty := func([]byte) ([]byte, error) { return []byte{}, nil }
+	if mode == "both" || mode == "client" {
+		ccfg.psk = empty
+	}
+	if mode == "both" || mode == "server" {
+		scfg.psk = empty
+	}
+	if !ems {
+		ccfg.ExtendedMasterSecret, scfg.ExtendedMasterSecret = DisableExtendedMasterSecret, DisableExtendedMasterSecret
+	}
+	lab := newLab(t, ccfg, scfg)
+	lab.Pump.run(lab.bothDone, 60*time.Second)
+	res.Done = lab.established()
+	res.Err = fmt.Sprintf("client=%v server=%v", lab.Client.Err, lab.Server.Err)
+	if res.Done {
+		cs, okc := lab.Client.Conn.ConnectionState()
+		ss, oks := lab.Server.Conn.ConnectionState()
+		if okc && oks {
+			label := "EXPERIMENTAL verif c07"
+			ec, _ := cs.ExportKeyingMaterial(label, nil, 32)
+			es, _ := ss.ExportKeyingMaterial(label, nil, 32)
+			res.ExpC, res.ExpS = vHex(ec), vHex(es)
+			cr, sr := c07Hellos(lab.Net.since(0))
+			if len(cr) == 32 && len(sr) == 32 {
+				// everything below is computed from the two hello randoms and the EMPTY key only
+				pms := prf.PSKPreMasterSecret(nil)
+				if ms, err := prf.MasterSecret(pms, cr, sr, sha256.New); err == nil {
+					seed := append(append([]byte(label), cr...), sr...)
+					if v, err := prf.PHash(ms, seed, 32, sha256.New); err == nil && (bytes.Equal(v, ec) || bytes.Equal(v, es)) {
+						res.ExpPublic = "P_sha256(PRF(00000000,'master secret',cr|sr), label|cr|sr)"
+					}
+				}
+			}
+		}
+	}
+	lab.close()
+
+	return res
+}
+
+// ---------------------------------------------------------------- resumed (exported / imported) states
+
+// c07Resume: the State handed to the VerifyConnection callback (captured while the handshake is still running) and
+// the State of the established connection are serialised, imported with Resume, and written to: every record the
+// resumed connection emits is labelled.  Application data must never leave at epoch 0 or in clear.
+func c07Resume(t *testing.T, v c07Variant, rng *vRand, out *vOut) {
+	t.Helper()
+	ccfg, scfg := v.mk()
+	captured := map[string][]byte{}
+	var mu sync.Mutex
+	capture := func(name string) func(*State) error {
+		return func(st *State) error {
+			raw, err := st.MarshalBinary()
+			mu.Lock()
+			if err == nil {
+				captured[name] = raw
+			}
+			mu.Unlock()
+
+			return nil
+		}
+	}
+	ccfg.verifyConnection = capture("verify/client")
+	scfg.verifyConnection = capture("verify/server")
+	lab := newLab(t, ccfg, scfg)
+	lab.Pump.run(lab.bothDone, 100*time.Second)
+	if lab.established() {
+		for _, p := range []*vPeer{lab.Client, lab.Server} {
+			if st, ok := p.Conn.ConnectionState(); ok {
+				if raw, err := st.MarshalBinary(); err == nil {
+					captured["established/"+p.Name] = raw
+				}
+			}
+		}
+	}
+	done := lab.established()
+	lab.close()
+	for _, when := range []string{"verify", "established"} {
+		for _, side := range []string{"client", "server"} {
+			res := c07Res{Kind: "resume", Variant: v.Name, Mode: when, Side: side, Drop: -1, Stage: -1, Done: done}
+			raw, ok := captured[when+"/"+side]
+			if !ok {
+				res.Refused = "state not captured / not serialisable"
+				out.emit(res)
+
+				continue
+			}
+			st := &State{}
+			if err := st.UnmarshalBinary(raw); err != nil {
+				res.Refused = "UnmarshalBinary: " + err.Error()
+				out.emit(res)
+
+				continue
+			}
+			n := newVNet()
+			ep := n.endpoint(side)
+			peer := "server"
+			if side == "server" {
+				peer = "client"
+			}
+			_ = n.endpoint(peer)
+			c2, s2 := v.mk()
+			cfg := c2
+			if side == "server" {
+				cfg = s2
+			}
+			conn, err := resumeWithConfig(st, ep, vAddr(peer), cfg)
+			if err != nil {
+				res.Refused = err.Error()
+				out.emit(res)
+
+				continue
+			}
+			pl := append([]byte("c07/resumed/"+when+"/"+side+"/"), rng.bytes(32)...)
+			werr := make(chan error, 1)
+			go func() { _, e := conn.Write(pl); werr <- e }()
+			synctest.Wait()
+			select {
+			case e := <-werr:
+				if e != nil {
+					res.Err = "Write: " + e.Error()
+				}
+			default:
+				res.Err = "Write still blocked"
+			}
+			res.Payloads = 1
+			log := n.since(0)
+			res.Datagrams = len(log)
+			idx := map[string]int{}
+			for _, d := range log {
+				if bytes.Contains(d.Data, pl[len(pl)-24:]) || bytes.Contains(d.Data, pl[:20]) {
+					res.Leaks = append(res.Leaks, c07Leak{What: "payload", From: side, Idx: d.Idx, Hex: vHex(d.Data), Sec: vHex(pl[len(pl)-24:])})
+				}
+				for _, r := range vParseDatagram(d.Data, 0) {
+					res.Records++
+					enc := r.Epoch != 0 && !bytes.Contains(r.Raw, pl[:20])
+					l := c07Label{From: side, CT: r.CT, Epoch: r.Epoch, Enc: enc, Note: "resumed"}
+					if r.CT == 25 {
+						l.CT = 23 // tls12_cid wrapped: the only thing a resumed connection was asked to send is application data
+					}
+					if l.CT == 23 && r.Epoch == 0 {
+						res.Epoch0++
+					}
+					k := fmt.Sprintf("%d|%d|%v", l.CT, l.Epoch, l.Enc)
+					if i, ok := idx[k]; ok {
+						res.Labels[i].N++
+					} else {
+						idx[k] = len(res.Labels)
+						l.N = 1
+						res.Labels = append(res.Labels, l)
+					}
+				}
+			}
+			_ = conn.Close()
+			_ = ep.Close()
+			synctest.Wait()
+			out.emit(res)
+		}
+	}
+}
+
 func TestVerifC07(t *testing.T) {
 	out := newVOut(t)
 	rng := newVRand(vSeed() ^ 0xc07)
@@ -921,6 +1105,20 @@ func TestVerifC07(t *testing.T) {
 	rounds := 1
 	if vIsThorough() {
 		rounds = 12
+	}
+	for _, mode := range []string{"both", "server", "client"} {
+		for _, ems := range []bool{false, true} {
+			var res c07Res
+			vBubble(t, func(t *testing.T) { res = c07EmptyPSK(t, mode, ems) })
+			out.emit(res)
+		}
+	}
+	for _, v := range variants {
+		if v.V13 {
+			continue
+		}
+		v := v
+		vBubble(t, func(t *testing.T) { c07Resume(t, v, rng, out) })
 	}
 	for r := 0; r < rounds; r++ {
 		for _, v := range variants {
